@@ -169,7 +169,7 @@ RMWOps == <<"xchg", "add", "sub", "and", "nand", "or", "xor", "max", "min", "uma
 
 Var(a) == [a |-> a, cls |-> ""]
 VarC(a, c) == [a |-> a, cls |-> c]
-SeqMap(f(_), s) == [i \in 1..Len(s) |-> f(s[i])]
+SeqMap(f(_), s) == SubSeq([i \in 1..Len(s) |-> f(s[i])], 1, Len(s))
 
 CallGroups(callee) == <<One(S(callee, "callee", "callee", "func")), Many(S("Args", "arg", "arg", "any")), Bundles>>
 
@@ -389,8 +389,11 @@ HasBundles(e) == \E i \in 1..Len(e.groups) : e.groups[i].ar = "bundles"
 Configs(e, cls) ==
   {[cnt |-> c, bund |-> b] : c \in CountSeqs(e, cls, 1), b \in IF HasBundles(e) THEN BundleShapes ELSE {<<>>}}
 \* the configuration used when another dimension is varied: everything present once, lists of length 2
+\* (functions over 1..n are turned into tuples at once: TLC normalises them lazily otherwise, which races
+\*  with several workers writing the state queue)
+AsTuple(f) == SubSeq(f, 1, Len(f))
 DefaultCfg(e, cls) ==
-  [cnt |-> [i \in 1..Len(e.groups) |-> IF e.groups[i].ar = "bundles" THEN 0 ELSE MaxOf(e, e.groups[i], cls)],
+  [cnt |-> AsTuple([i \in 1..Len(e.groups) |-> IF e.groups[i].ar = "bundles" THEN 0 ELSE MaxOf(e, e.groups[i], cls)]),
    bund |-> <<>>]
 
 ----------------------------------------------------------------------------
@@ -507,7 +510,7 @@ FixFlags(e, cfg, fl) == IF e.kind = "landingpad" /\ cfg.cnt[1] = 0 THEN <<"clean
 
 \* alias: for every operand the operand whose value it shares (itself by default); the "alias"
 \* family makes two branch targets the same block (successors are a list with multiplicity)
-NoAlias(ops) == [i \in 1..Len(ops) |-> i]
+NoAlias(ops) == AsTuple([i \in 1..Len(ops) |-> i])
 MkCaseP(e, fam, cls, cfg, fl, attrs, named, wrap, path, ali) ==
   LET ops == OpsOf(e, cls, cfg, attrs, path) IN
   [kind |-> e.kind, cat |-> e.cat, fam |-> fam, cls |-> cls, cfg |-> cfg, flags |-> FixFlags(e, cfg, fl), attrs |-> attrs,
@@ -515,13 +518,13 @@ MkCaseP(e, fam, cls, cfg, fl, attrs, named, wrap, path, ali) ==
    res |-> IF e.res = "none" THEN TyVoid ELSE ResTy(e, cls, cfg, attrs, path),
    idx |-> IF e.kind \in {"extractvalue", "insertvalue"} THEN path ELSE <<>>,
    ops |-> ops, succs |-> SuccsOf(e, ops),
-   alias |-> IF ali = <<>> THEN NoAlias(ops) ELSE [i \in 1..Len(ops) |-> IF i = ali[2] THEN ali[1] ELSE i]]
+   alias |-> IF ali = <<>> THEN NoAlias(ops) ELSE AsTuple([i \in 1..Len(ops) |-> IF i = ali[2] THEN ali[1] ELSE i])]
 MkCase(e, fam, cls, cfg, fl, attrs, named, wrap) ==
   MkCaseP(e, fam, cls, cfg, fl, attrs, named, wrap, DefPath(e, cls), <<>>)
 
 \* the configuration of an index path: a getelementptr has one index operand per path element
 PathCfg(e, cls, path) ==
-  IF e.kind = "getelementptr" THEN [DefaultCfg(e, cls) EXCEPT !.cnt[2] = Len(path)] ELSE DefaultCfg(e, cls)
+  IF e.kind = "getelementptr" THEN [DefaultCfg(e, cls) EXCEPT !.cnt = <<1, Len(path)>>] ELSE DefaultCfg(e, cls)
 \* pairs <<i, j>>, i < j, of branch-target operands of a configuration
 TargetPairs(e, cls, cfg, attrs) ==
   LET su == SuccsOf(e, OpsOf(e, cls, cfg, attrs, DefPath(e, cls))) IN
